@@ -1,4 +1,4 @@
-import RV.Proofs.BinWriter
+import RV.Proofs.BinRestart
 /-
   C07 — a crash during an archive write never loses completed snapshots.
 
@@ -50,6 +50,54 @@ theorem c07_append_plan (v : Variant) (cmp : Nat → Bytes → Bytes → Bool) (
     appendPlan v cmp (archI hdr fs0 ds) (h2 ++ (encFs b ++ (endBytes ++ t2)))
       = .plan ⟨(archI hdr fs0 ds).length - 12, pendingData ds (diffF v cmp fs0 b), false⟩ :=
   appendPlan_archI v cmp hdr fs0 ds h h2 t2 b hh2 hb hL hn
+
+/-- **restart theorem**.  `Damaged hdr fs0 ds X` = everything of the archive up to its last intact trailer,
+    followed by arbitrary bytes `X` of which only the first 8 (index, offset_prev of that trailer) are known to
+    have survived — every crash image, with or without stale tails of earlier cycles, has this form.  Under
+    **NoFakeTrailer** (`Recovers`: the writer's recovery logic — last 28 bytes, one earlier trailer, repair walk —
+    ends at the last intact trailer with a clean END template; decidable, evaluated by the driver on every
+    generated image) the restarted append writes, at that trailer, exactly what the append to the intact archive
+    writes: `∃ tail, append damaged s' = append intact s' ++ tail`. -/
+theorem c07_restart_append (v : Variant) (cmp : Nat → Bytes → Bytes → Bool) (hdr : Bytes) (fs0 : List Field)
+    (ds : List (List Field)) (h : ArchOK hdr fs0 ds) (X : Bytes)
+    (hX : X.take 8 = le32 ds.length ++ le32 (lastPrev 0 ds)) (hXl : 12 ≤ X.length)
+    (hrec : Recovers (Damaged hdr fs0 ds X) ((archPre hdr fs0 ds).length + 12))
+    (h2 t2 : Bytes) (b : List Field) (hh2 : h2.length = 64) (hb : WFs b)
+    (hL : blobLen (diffF v cmp fs0 b) < 2147483648) (hn : ds.length + 1 < 4294967296) :
+    append v cmp (Damaged hdr fs0 ds X) (h2 ++ (encFs b ++ (endBytes ++ t2)))
+      = some (archI hdr fs0 (ds ++ [diffF v cmp fs0 b]) ++ X.drop (pendingData ds (diffF v cmp fs0 b)).length) :=
+  append_damaged v cmp hdr fs0 ds h X hX hXl hrec h2 t2 b hh2 hb hL hn
+
+/-- one crash/restart cycle on `archive ++ stale tail`, any cut point `k` of any pending delta `dn` -/
+theorem c07_crash_restart (v : Variant) (cmp : Nat → Bytes → Bytes → Bool) (hdr : Bytes) (fs0 : List Field)
+    (ds : List (List Field)) (h : ArchOK hdr fs0 ds) (tail0 : Bytes) (dn : List Field) (k : Nat)
+    (hrec : Recovers (crash (archI hdr fs0 ds ++ tail0) (archPre hdr fs0 ds).length (pendingData ds dn) k)
+              ((archPre hdr fs0 ds).length + 12))
+    (h2 t2 : Bytes) (b : List Field) (hh2 : h2.length = 64) (hb : WFs b)
+    (hL : blobLen (diffF v cmp fs0 b) < 2147483648) (hn : ds.length + 1 < 4294967296) :
+    ∃ tail, append v cmp (crash (archI hdr fs0 ds ++ tail0) (archPre hdr fs0 ds).length (pendingData ds dn) k)
+              (h2 ++ (encFs b ++ (endBytes ++ t2)))
+      = some (archI hdr fs0 (ds ++ [diffF v cmp fs0 b]) ++ tail) :=
+  crash_restart v cmp hdr fs0 ds h tail0 dn k hrec h2 t2 b hh2 hb hL hn
+
+/-- **repeated crash/restart cycles** (induction over the run): the file is always the archive of the
+    uninterrupted run followed by a stale tail -/
+theorem c07_cycles (v : Variant) (cmp : Nat → Bytes → Bytes → Bool) (hdr : Bytes) (fs0 : List Field)
+    (cs : List Cycle) (ds : List (List Field)) (h : ArchOK hdr fs0 ds) (tail0 : Bytes)
+    (hok : CyclesOK v cmp hdr fs0 ds (archI hdr fs0 ds ++ tail0) cs) :
+    ∃ tail, runCycles v cmp hdr fs0 ds (archI hdr fs0 ds ++ tail0) cs
+      = some (archI hdr fs0 (ds ++ cs.map (fun c => diffF v cmp fs0 c.s.2.1)) ++ tail) :=
+  cycles_archive v cmp hdr fs0 cs ds h tail0 hok
+
+/-- the stale tail is invisible: index and every snapshot of `archive ++ tail` are those of the archive — so the
+    restarted archive exposes exactly the snapshots of the uninterrupted run -/
+theorem c07_stale_tail_invisible (v : Variant) (init : State) (hdr : Bytes) (fs0 : List Field)
+    (ds : List (List Field)) (h : ArchOK hdr fs0 ds) (tail : Bytes) :
+    index v (archI hdr fs0 ds ++ tail) = index v (archI hdr fs0 ds) ∧
+    ∀ k, k < ds.length + 1 →
+      snapshot init (archI hdr fs0 ds ++ tail) ((archEntries fs0 ds).map (·.off)) k
+        = snapshot init (archI hdr fs0 ds) ((archEntries fs0 ds).map (·.off)) k :=
+  ⟨index_tail v hdr fs0 ds h tail, fun k hk => snapshot_tail init hdr fs0 ds h tail k hk⟩
 
 /-- prefix lemma: walking a strict prefix of an encoded blob ends in `read_error` — never in an accepted
     blob, never in an out-of-bounds read -/
